@@ -6,7 +6,8 @@ CLASSES = {
     '_socket': 'TimedSocket', '_state': 'int', '_processing': 'Greenlet?', '_open_result': 'AsyncResult?',
     # ghost: messages handed to the stack of the transaction in progress
   }),
-  'TimeoutObj': dict(extern=True, path=None, bases=[], fields={}),
+  # g_armed (ghost): the timer is running -- a blocking socket call made now is interrupted at the deadline
+  'TimeoutObj': dict(extern=True, path=None, bases=[], fields={'g_armed': 'bool'}, ghost=['g_armed']),
   # the serial transport's socket: a gevent.Timeout armed around the transaction may surface in its blocking calls
   'TimedSocket': dict(extern=True, path=None, bases=['Socket'], fields={}),
   'Greenlet': dict(extern=True, path=None, bases=[], fields={}),
@@ -67,7 +68,7 @@ FUNCTIONS = {
       # socket call) or the deadline had passed -- in particular however the reply bytes are split across reads
       'implies(not self._socket.g_ioerr and not g_expired and sz_ok(g_sz), g_spawned == 1 and g_posts == 0)',
     ],
-    modifies=['Socket.g_ioerr', 'SocketTransportSink._state', 'Socket.connected', 'Socket.g_epoch', 'SocketTransportSink._open_result', 'SocketTransportSink._processing',
+    modifies=['TimeoutObj.g_armed', 'Socket.g_ioerr', 'SocketTransportSink._state', 'Socket.connected', 'Socket.g_epoch', 'SocketTransportSink._open_result', 'SocketTransportSink._processing',
               'Observable.value', 'deque[tuple[AnySink,any]]', 'AnySink.g_invoked', 'MethodReturnMessage.error',
               'MethodReturnMessage.return_value', 'MethodReturnMessage.stack', 'Socket.g_written', '$cls'],
     allocates=True,
@@ -77,7 +78,14 @@ FUNCTIONS = {
       {'after': "(sz,) = unpack('!i', self._socket.readAll(4))", 'do': ['g_sz = sz']},
       # C12: once the deadline has been reached the caller may already hold TimeoutError: nothing is written
       {'before': 'self._socket.write(data)', 'do': [
-        'prove(implies(not is_none(deadline) and truthy(deadline), g_now < deadline), "nothing-written-at-or-after-the-deadline")']},
+        'prove(implies(not is_none(deadline) and truthy(deadline), g_now < deadline), "nothing-written-at-or-after-the-deadline")',
+        'prove(implies(not is_none(deadline) and truthy(deadline), gtimeout is not None and gtimeout.g_armed), "deadline-timer-running-across-the-write")']},
+      # C08: a peer that goes silent at any point of the exchange is noticed: with a deadline, its timer is running across
+      # the write and across both reads (header and body), so the silence ends in the timeout branch
+      {'before': "(sz,) = unpack('!i', self._socket.readAll(4))", 'do': [
+        'prove(implies(not is_none(deadline) and truthy(deadline), gtimeout is not None and gtimeout.g_armed), "deadline-timer-running-across-the-header-read")']},
+      {'before': 'buf = BytesIO(self._socket.readAll(sz))', 'do': [
+        'prove(implies(not is_none(deadline) and truthy(deadline), gtimeout is not None and gtimeout.g_armed), "deadline-timer-running-across-the-body-read")']},
       {'before': 'self._processing = None', 'do': ['g_slot_freed = True']},
       {'after': 'timeout = deadline - time.time()', 'do': ['g_now = deadline - timeout']},
       # C14 framing: the reply body handed on is exactly the number of bytes the 4-byte prefix announced
@@ -139,10 +147,12 @@ EXTERNS = {
                       notes='one recv: whatever has arrived, at most sz bytes -- possibly fewer than asked for'),
   'TimedSocket.readAll': dict(params=[('sz', 'int')], returns='bytes', may_raise=['Exception', 'EOFError', 'Timeout'], modifies=['Socket.g_ioerr'],
                          ensures=['blen(result) == sz', 'self.connected', 'self.g_ioerr == old(self.g_ioerr)'], raise_ensures=['self.g_ioerr']),
-  'gevent.Timeout.start_new': dict(params=[('timeout', 'real')], returns='TimeoutObj', fresh=True, allocates=True),
+  'gevent.Timeout.start_new': dict(params=[('timeout', 'real')], returns='TimeoutObj', fresh=True, allocates=True, modifies=['TimeoutObj.g_armed'],
+                                   ensures=['result.g_armed', 'forall_ref(t, TimeoutObj, implies(t != result, t.g_armed == old(t.g_armed)), t.g_armed)']),
   'gevent.Timeout': dict(params=[], returns='Timeout', fresh=True, allocates=True),
   'gevent.spawn_greenlet': dict(params=[], returns='Greenlet'),
-  'TimeoutObj.cancel': dict(params=[]),
+  'TimeoutObj.cancel': dict(params=[], modifies=['TimeoutObj.g_armed'],
+                            ensures=['not self.g_armed', 'forall_ref(t, TimeoutObj, implies(t != self, t.g_armed == old(t.g_armed)), t.g_armed)']),
   'Greenlet.kill': dict(params=[('block', 'bool')]),
 }
 
@@ -230,12 +240,40 @@ EXTERNS.update({
 # ---------------------------------------------------------------------------- reading the reply (C14: chunk independence)
 CLASSES.update({
   'ScalesSocket': dict(file='scales/scales_socket.py', path='ScalesSocket', bases=[], fields={
-    'handle': 'any', 'host': 'any', 'port': 'any',
+    'handle': 'GSock?', 'host': 'any', 'port': 'any',
     # ghost: the byte stream the peer sends on this connection and how much of it has been consumed
     'g_stream': 'int', 'g_pos': 'int'}, ghost=['g_stream', 'g_pos']),
 })
 
+CLASSES.update({
+  'AddrInfo': dict(extern=True, path=None, bases=[], fields={}),
+  'GSock': dict(extern=True, path=None, bases=[], fields={'g_connected': 'bool', 'g_closed': 'bool'}, ghost=['g_connected', 'g_closed']),
+})
+EXTERNS.update({
+  'gevent.socket.socket': dict(params=[('family', 'any'), ('kind', 'any')], returns='GSock', fresh=True, allocates=True, modifies=['GSock.g_connected', 'GSock.g_closed'],
+                  ensures=['not result.g_connected and not result.g_closed'], notes='gevent.socket.socket(family, type): a new, unconnected socket'),
+  'GSock.connect': dict(params=[('addr', 'any')], modifies=['GSock.g_connected'], may_raise=['error'],
+                        ensures=['self.g_connected', 'forall_ref(g, GSock, implies(g != self, g.g_connected == old(g.g_connected)), g.g_connected)'],
+                        notes='connects or raises socket.error (refused, unreachable, ...); a raising connect leaves the socket unconnected'),
+  'AddrInfo.__getitem__': dict(params=[('idx', 'int')], returns='any', notes='one component of a getaddrinfo 5-tuple'),
+  'GSock.close': dict(params=[], modifies=['GSock.g_connected', 'GSock.g_closed'],
+                      ensures=['self.g_closed and not self.g_connected', 'forall_ref(g, GSock, implies(g != self, g.g_connected == old(g.g_connected) and g.g_closed == old(g.g_closed)), g.g_connected)']),
+  'ScalesSocket._resolveAddr': dict(params=[], returns='list[AddrInfo]', fresh=True, allocates=True, may_raise=['error'],
+                                    ensures=['allocated(result)'], notes='socket.getaddrinfo: the candidate addresses, possibly none; may raise socket.gaierror'),
+})
 FUNCTIONS.update({
+  # C08 (refused or failed connect): a socket whose open() raised does not report itself open, and one that reports itself
+  # open holds a connected handle -- isOpen() is `handle is not None`, and the transport's `state` reads it
+  'ScalesSocket.open': dict(
+    file='scales/scales_socket.py', cls='ScalesSocket', returns='none',
+    locals={'resolved': 'list[AddrInfo]', 'res': 'AddrInfo'},
+    requires=['self.handle is None'],
+    ensures=['implies(self.handle is not None, self.handle.g_connected and not self.handle.g_closed)'],
+    raises={'error': dict(ensures=['self.handle is None'])},
+    modifies=['ScalesSocket.handle', 'GSock.g_connected', 'GSock.g_closed', '$cls'], allocates=True,
+    loops={0: dict(invariant=['allocated(resolved)', 'self.handle is None'], modifies=['ScalesSocket.handle', 'GSock.g_connected', 'GSock.g_closed', '$cls'], allocates=True)},
+    props=['C08'],
+  ),
   # whatever chunk sizes the socket returns (1 <= k <= requested, 0 = end of stream), the result is the
   # next sz bytes of the stream
   'ScalesSocket.read': dict(
